@@ -1,4 +1,5 @@
 import ZstdVerif.Model.Conform
+import ZstdVerif.Model.Walker
 import Driver.Util
 namespace Driver.Dec
 open ZstdVerif
@@ -40,6 +41,29 @@ def step (_ : Unit) (ws : List String) : Unit × String :=
                 ||| (if tr.litStreams == 4 then 1 <<< 8 else 0) ||| (if tr.nbSeq == 0 then 1 <<< 9 else (1 <<< (10 + a)) ||| (1 <<< (14 + o)) ||| (1 <<< (18 + m)))
                 ||| (if tr.nbSeq ≥ 0x7F00 then 1 <<< 22 else 0)) c) 0
         ((), s!"ok frames={trs.size} blocks={blocks} seqs={seqs} cov={cov}")
+  | ["walk", hx] =>
+      let b := if hx == "-" then ByteArray.empty else ByteArray.ofHex hx
+      ((), match Walker.frames (fun i => b.u8 i) (b.size + 1) 0 b.size with
+           | .ok l => "ok " ++ ",".intercalate (l.map toString)
+           | .error e => s!"err {e.cls}")
+  | ["pledge", pl, total, chunks, mode] =>
+      -- the streaming compressor's pledged-size bookkeeping on the same call history as the harness drives
+      let tot := total.toNat!
+      let cs := (chunks.splitOn ",").filterMap (·.toNat?)
+      let p0 : Walker.Pledge := { plusOne := (match pl.toInt? with | some v => if v < 0 then 0 else v.toNat + 1 | none => 0), consumed := 0, started := false }
+      let rec go (p : Walker.Pledge) (fed : Nat) (k : Nat) : List Nat → String
+        | [] =>
+          if mode == "0" then s!"ok fed={fed}" else
+          match p.call 0 .end_ with
+          | .ok _ => s!"ok fed={fed}"
+          | .error _ => s!"err at={k} fed={fed}"
+        | c :: rest =>
+          let n := min c (tot - fed)
+          let last := rest.isEmpty
+          match p.call n (if last && mode == "0" then .end_ else .cont) with
+          | .ok p' => go p' (fed + n) (k + 1) rest
+          | .error _ => s!"err at={k} fed={fed}"
+      ((), go p0 0 0 cs)
   | _ => ((), "bad-op")
 
 def main : IO Unit := do
